@@ -218,9 +218,15 @@ func (b *Broker) Send(ctx context.Context, t EventType, payload interface{}) (St
 // is to have all Nodes reevaluated any external configuration they might have.
 func (b *Broker) Reopen(ctx context.Context) error {
 	b.lock.RLock()
-	defer b.lock.RUnlock()
-
+	graphs := make([]*graph, 0, len(b.graphs))
 	for _, g := range b.graphs {
+		graphs = append(graphs, g)
+	}
+	b.lock.RUnlock()
+
+	// The nodes are reopened without the lock being held, as reopening a node
+	// may result in the node sending events via the broker.
+	for _, g := range graphs {
 		if err := g.reopen(ctx); err != nil {
 			return err
 		}
